@@ -615,6 +615,7 @@ class CircuitTemplate(AbstractBaseTemplate):
         """
 
         # add extrinsic inputs to network
+        solver = kwargs.get('solver')
         if "adaptive" in kwargs:
             adaptive_steps = kwargs.pop("adaptive")
         else:
@@ -632,6 +633,10 @@ class CircuitTemplate(AbstractBaseTemplate):
         # translate circuit template into a graph representation
         net.apply(adaptive_steps=adaptive_steps, verbose=verbose, backend=backend, step_size=step_size,
                   vectorize=vectorize, **kwargs)
+
+        # a solver the chosen backend does not have is refused here as it is by `run`
+        if solver is not None:
+            net._ir.graph.backend._validate_solver(solver)
 
         # impose initial condition
         for key, val in book._state_var_values.items():
@@ -709,6 +714,7 @@ class CircuitTemplate(AbstractBaseTemplate):
         """
 
         # add extrinsic inputs to network
+        solver = kwargs.get('solver')
         if "adaptive" in kwargs:
             adaptive_steps = kwargs.pop("adaptive")
         else:
@@ -726,6 +732,10 @@ class CircuitTemplate(AbstractBaseTemplate):
         # translate circuit template into a graph representation
         net.apply(adaptive_steps=adaptive_steps, verbose=verbose, backend=backend, step_size=step_size,
                   vectorize=vectorize, **kwargs)
+
+        # a solver the chosen backend does not have is refused here as it is by `run`
+        if solver is not None:
+            net._ir.graph.backend._validate_solver(solver)
 
         # impose initial condition
         for key, val in book._state_var_values.items():
